@@ -506,6 +506,13 @@ class FuncAnalysis:
                 if isinstance(tg, ast.Subscript):
                     base = self.ev(tg.value)
                     self.site(st, "setitem", tg.value, base, st, value=v)
+                    shared = {o for o in base.all() if o.startswith("global:")}
+                    if shared:
+                        # the stored objects are now reachable from module state: every local name they were read from aliases it
+                        for n in ast.walk(st.value):
+                            if isinstance(n, ast.Name) and n.id in self.env and not self.env[n.id].scalar:
+                                cur = self.env[n.id]
+                                self.env[n.id] = AVal(set(cur.self_) | shared, cur.elems, cur.container, cur.scalar)
                 self.bind(tg, v)
         elif isinstance(st, ast.AnnAssign):
             if st.value is not None:
